@@ -26,6 +26,12 @@ CLAIMED = {
  "C14": dict(cat="exploration", ref="DESIGN.md §3.1", tech="deterministic simulation of a layered store with localized operations checked against a specification table on disk, plus direct enumeration of the 6x8 localizer table",
    text="All 40 game x language pairs are cycled over simulated worlds in which 70 % of operations are localized; the on-disk location addressed by every localized write/read/exists/list must be the table-localized one, and the localizer functions themselves are enumerated against the table (all 6 localizers x 8 languages, generated and degenerate paths).",
    note="Trusted: the marker table copied from the pinned code (now the specification). The table half is enumeration of a pure function, stated as such; the disk half is what needs the simulator."),
+ "C11": dict(cat="fault_enumeration", ref="DESIGN.md §3.6", tech="deterministic simulation with storage-fault enumeration: peer-written compressed files at rest, every truncation point and bit flip, read back through the codec entry points and the layered filesystem, judged by a three-way reference validator",
+   text="Conforming streams from an independent token-level encoder (every legal length/displacement form, incl. forms mila's compressor never emits) are stored, then every truncation point, every single bit flip, header overwrites, sector faults, splices and tiny files are enumerated; each stored file is read through all decompression entry points and the filesystem. A reference expander classifies the bytes actually stored: conforming -> exactly that data, definitely malformed -> Err, otherwise only no panic. Fault enumeration is the right level: the error clause of the property is about truncated/corrupted streams, and truncation points and single-bit corruptions of a short file are a finite set that can be covered completely per file.",
+   note="Trusted: the reference expander/validator and encoder (harness code). Enumeration is complete per generated file (truncations, single flips <= 256 bytes); the set of files is sampled."),
+ "C05": dict(cat="fault_enumeration", ref="DESIGN.md §3.5", tech="deterministic simulation with storage-fault enumeration in isolated workers: truncations and planted boundary words on valid files of every archive family, allocator seam, abort/hang attribution through a write-ahead journal",
+   text="Valid files of every archive family are hit by every truncation point and by boundary values planted in every 32-bit word (both byte orders), plus sampled flips, sector faults, splices and multi-fault combinations, and fed to every parser of the family (and through the filesystem's typed readers) inside isolated single-threaded workers. The outcome of each call must be Ok or Err: panics are caught with their location, aborts and hangs are observed by the supervisor and attributed to the exact operation through a shared-memory journal, and an allocator seam bounds the largest single request by 64 x input + 1 MiB. Both arithmetic profiles.",
+   note="Trusted: the allocator seam and process supervision; the bound's constant (64x + 1 MiB) is the harness's reading of 'small constant multiple'. The space of byte strings is sampled structure-aware; enumeration is complete only per file for truncations and (up to 640 bytes) word plants."),
 }
 NA = {
  "C01": "pure function: parse(serialize(a)) of one in-memory value and parsing of re-arranged images; no schedule, clock, fault or shared state in the quantifier (inputs x configurations only) - input generation alone would decide it, which is not simulation",
